@@ -499,6 +499,10 @@ class Syntax(JupyterMixin):
 
         if not self.line_numbers:
             # Simple case of just rendering text
+            if self.line_range:
+                new_line_text = text.blank_copy()
+                new_line_text.plain = "\n"
+                text = new_line_text.join(text.split("\n")[line_offset:end_line])
             yield from console.render(text, options=options.update(width=code_width))
             return
 
